@@ -61,11 +61,11 @@ pub fn run(r: &mut Report) {
     }
     // delegation: step "a" of the parent is satisfied by a sub-layout signed by ka, with inner links in <dir>/a.<prefix(ka)>/
     #[derive(Clone, Copy, Debug)]
-    enum Fault { None, InnerLinksInParentDir, SubSignedByOther, SubExpired, InnerUnauthorised, InnerMissing }
-    for f in [Fault::None, Fault::InnerLinksInParentDir, Fault::SubSignedByOther, Fault::SubExpired, Fault::InnerUnauthorised, Fault::InnerMissing] {
+    enum Fault { None, InnerLinksInParentDir, SubSignedByOther, SubExpired, SubExpiredCenturiesAgo, SubExpiredMillenniaAgo, InnerUnauthorised, InnerMissing }
+    for f in [Fault::None, Fault::InnerLinksInParentDir, Fault::SubSignedByOther, Fault::SubExpired, Fault::SubExpiredCenturiesAgo, Fault::SubExpiredMillenniaAgo, Fault::InnerUnauthorised, Fault::InnerMissing] {
         let d = tmpdir();
         let inner_signer = if let Fault::InnerUnauthorised = f { &kc } else { &kb };
-        let sub = layout(vec![step("inner", 1, &[&kb], allow_all(), allow_all())], vec![], &[&kb], if let Fault::SubExpired = f { -1 } else { 30 });
+        let sub = layout(vec![step("inner", 1, &[&kb], allow_all(), allow_all())], vec![], &[&kb], match f { Fault::SubExpired => -1, Fault::SubExpiredCenturiesAgo => -365 * 400, Fault::SubExpiredMillenniaAgo => -365 * 2020, _ => 30 });
         let sub_signer = if let Fault::SubSignedByOther = f { &kc } else { &ka };
         let sub_mb = signed_layout(&sub, &[sub_signer]);
         // the sub-layout is filed as the link of step a under ka's prefix
